@@ -1,0 +1,251 @@
+//go:build verif
+
+package dastard
+
+// Verification hooks for property C03 (build tag "verif" only): a scripted PacketProducer, a
+// constructor that installs such producers in a real AbacoSource and runs the real
+// Sample / PrepareChannels / PrepareRun / StartRun sequence, and accessors for what the reader loop
+// publishes.  No logic of dastard is changed here.
+
+import (
+	"fmt"
+	"sync"
+	"time"
+
+	"github.com/usnistgov/dastard/packets"
+)
+
+// VerifScriptedProducer is a PacketProducer whose k-th ReadAllPackets call returns the k-th scripted
+// batch (indexed by call count, never by wall-clock time).  The first call beyond the script
+// announces the end of the script and then blocks until the run is released.
+type VerifScriptedProducer struct {
+	Sampled []*packets.Packet   // returned by samplePackets
+	Batches [][]*packets.Packet // Batches[k] is returned by the k-th ReadAllPackets call
+	calls   int
+	done    chan struct{} // closed by the leading producer when its script is exhausted
+	release chan struct{} // closed by the harness to let the reader loop go on (and end)
+	leader  bool
+}
+
+// ReadAllPackets returns the next scripted batch.
+func (p *VerifScriptedProducer) ReadAllPackets() ([]*packets.Packet, error) {
+	k := p.calls
+	p.calls++
+	if k < len(p.Batches) {
+		return p.Batches[k], nil
+	}
+	if k == len(p.Batches) && p.leader {
+		close(p.done)
+	}
+	<-p.release
+	return nil, nil
+}
+
+func (p *VerifScriptedProducer) samplePackets(d time.Duration) ([]*packets.Packet, error) {
+	return p.Sampled, nil
+}
+func (p *VerifScriptedProducer) start() error        { return nil }
+func (p *VerifScriptedProducer) discardStale() error { return nil }
+func (p *VerifScriptedProducer) stop() error         { return nil }
+
+// VerifAbacoRun is a real AbacoSource whose producers are scripted.
+type VerifAbacoRun struct {
+	AS      *AbacoSource
+	done    chan struct{}
+	release chan struct{}
+	nticks  int
+}
+
+var verifC03PubOnce sync.Once
+
+// VerifNewAbacoRun builds an AbacoSource (phase unwrapping off: raw samples pass through), installs
+// the producers and runs Sample, PrepareChannels, PrepareRun and StartRun as Start would.
+// All producers must script the same number of batches.
+func VerifNewAbacoRun(prods []*VerifScriptedProducer) (*VerifAbacoRun, error) {
+	verifC03PubOnce.Do(func() {
+		// PrepareRun would otherwise bind the ZMQ publication ports.
+		if PubRecordsChan == nil {
+			PubRecordsChan = make(chan []*DataRecord, 16)
+		}
+		if PubSummariesChan == nil {
+			PubSummariesChan = make(chan []*DataRecord, 16)
+		}
+	})
+	if len(prods) == 0 {
+		return nil, fmt.Errorf("no producers")
+	}
+	as, err := NewAbacoSource()
+	if err != nil {
+		return nil, err
+	}
+	r := &VerifAbacoRun{AS: as, done: make(chan struct{}), release: make(chan struct{}), nticks: len(prods[0].Batches)}
+	as.unwrapOpts = AbacoUnwrapOptions{}
+	as.producers = make([]PacketProducer, 0, len(prods))
+	for i, p := range prods {
+		if len(p.Batches) != r.nticks {
+			return nil, fmt.Errorf("producer %d scripts %d batches, producer 0 scripts %d", i, len(p.Batches), r.nticks)
+		}
+		p.done = r.done
+		p.release = r.release
+		p.leader = i == 0
+		as.producers = append(as.producers, p)
+	}
+	if err := as.Sample(); err != nil {
+		return nil, err
+	}
+	if err := as.PrepareChannels(); err != nil {
+		return nil, err
+	}
+	if err := as.PrepareRun(4, 8); err != nil {
+		return nil, err
+	}
+	if err := as.StartRun(); err != nil {
+		return nil, err
+	}
+	return r, nil
+}
+
+// VerifAbacoSeg is the projection of one DataSegment of a block.
+type VerifAbacoSeg struct {
+	First   int64
+	Dropped int
+	FPS     int
+	Signed  bool
+	Data    []uint16
+}
+
+// VerifAbacoBlock is the projection of one block delivered through getNextBlock.
+type VerifAbacoBlock struct {
+	Err        string
+	NSamp      int
+	BufDropped int // droppedFrames of the buffersChan message the block was made from
+	BufLens    []int
+	Segs       []VerifAbacoSeg
+}
+
+// WaitScript blocks until the reader loop asks for the first batch beyond the script, i.e. until
+// every scripted tick has been processed completely.  It fails if the loop ended by itself or does
+// not get there within the (generous, never reached in normal operation) limit.
+func (r *VerifAbacoRun) WaitScript(limit time.Duration) error {
+	select {
+	case <-r.done:
+		return nil
+	case <-time.After(limit):
+		return fmt.Errorf("reader loop did not exhaust its script of %d ticks within %v", r.nticks, limit)
+	}
+}
+
+// GroupKeys returns the channel groups in the source's sorted order, and the channel numbers.
+func (r *VerifAbacoRun) GroupKeys() ([]GroupIndex, []int) {
+	return append([]GroupIndex(nil), r.AS.groupKeysSorted...), append([]int(nil), r.AS.chanNumbers...)
+}
+
+// GroupState returns, per group in sorted order, the sequence-number sync offset and the last
+// sequence number seen (as left by Sample when called before any tick).
+func (r *VerifAbacoRun) GroupState() (sync []uint32, last []uint32, qlen []int) {
+	for _, k := range r.AS.groupKeysSorted {
+		g := r.AS.groups[k]
+		sync = append(sync, g.seqnumsync)
+		last = append(last, g.lastSN)
+		qlen = append(qlen, len(g.queue))
+	}
+	return
+}
+
+// Blocks must be called after WaitScript: it takes every message the reader loop has published on
+// buffersChan through getNextBlock (the real distributeData) and returns the projections in order.
+func (r *VerifAbacoRun) Blocks() []VerifAbacoBlock {
+	as := r.AS
+	n := len(as.buffersChan)
+	// look at the published messages, then put them back in the same order (the loop is parked inside
+	// ReadAllPackets and this goroutine is the only consumer)
+	msgs := make([]AbacoBuffersType, 0, n)
+	for i := 0; i < n; i++ {
+		msgs = append(msgs, <-as.buffersChan)
+	}
+	for _, m := range msgs {
+		as.buffersChan <- m
+	}
+	out := make([]VerifAbacoBlock, 0, n)
+	for i := 0; i < n; i++ {
+		b, ok := <-as.getNextBlock()
+		vb := VerifAbacoBlock{BufDropped: msgs[i].droppedFrames}
+		for _, dc := range msgs[i].datacopies {
+			vb.BufLens = append(vb.BufLens, len(dc))
+		}
+		if !ok || b == nil {
+			vb.Err = "closed"
+			out = append(out, vb)
+			break
+		}
+		if b.err != nil {
+			vb.Err = b.err.Error()
+		}
+		vb.NSamp = b.nSamp
+		for _, s := range b.segments {
+			d := make([]uint16, len(s.rawData))
+			for j, v := range s.rawData {
+				d[j] = uint16(v)
+			}
+			vb.Segs = append(vb.Segs, VerifAbacoSeg{First: int64(s.firstFrameIndex), Dropped: s.droppedFrames,
+				FPS: s.framesPerSample, Signed: s.signed, Data: d})
+		}
+		out = append(out, vb)
+	}
+	return out
+}
+
+// Close ends the run: the reader loop is told to abort and released.
+func (r *VerifAbacoRun) Close() {
+	as := r.AS
+	close(as.abortSelf)
+	close(r.release)
+	if as.numberWrittenTicker != nil {
+		as.numberWrittenTicker.Stop()
+	}
+	if as.writingState.externalTriggerTicker != nil {
+		as.writingState.externalTriggerTicker.Stop()
+	}
+	if as.writingState.dataDropTicker != nil {
+		as.writingState.dataDropTicker.Stop()
+	}
+	// wait for the loop to close buffersChan so that nothing of this run is left running
+	deadline := time.After(2 * time.Second)
+	for {
+		select {
+		case _, ok := <-as.buffersChan:
+			if !ok {
+				return
+			}
+		case <-deadline:
+			return
+		}
+	}
+}
+
+// VerifMakeAbacoPacket builds a data packet of nchan channels starting at channel offset off, with
+// the given sequence number; data holds frames x nchan values (frame-major) sent as int16 or, when
+// wide, int32.  tsCounts != 0 adds a timestamp of that many counts at rate tsRate.
+func VerifMakeAbacoPacket(off, nchan int, sn uint32, wide bool, data []int32, tsCounts uint64, tsRate float64) (*packets.Packet, error) {
+	p := packets.NewPacket(10, 20, sn-1, off) // NewData increments the sequence number
+	var err error
+	if wide {
+		err = p.NewData(append([]int32(nil), data...), []int16{int16(nchan)})
+	} else {
+		d := make([]int16, len(data))
+		for i, v := range data {
+			d[i] = int16(v)
+		}
+		err = p.NewData(d, []int16{int16(nchan)})
+	}
+	if err != nil {
+		return nil, err
+	}
+	if tsCounts != 0 {
+		p.SetTimestamp(packets.MakeTimestamp(uint16(tsCounts>>32), uint32(tsCounts), tsRate))
+	}
+	if p.SequenceNumber() != sn {
+		return nil, fmt.Errorf("sequence number %d, want %d", p.SequenceNumber(), sn)
+	}
+	return p, nil
+}
